@@ -48,9 +48,10 @@ func lookupFlow[T any](urlTree *URLTree[T], url string) lookupFlowNodeResult[T] 
 		break
 	}
 
-	if matchedAllParts && currentNode.hasValue() && currentNode.WildcardChild == nil {
+	if matchedAllParts && currentNode.hasValue() {
 		flows = append(flows, *currentNode.Value)
-	} else if matchedAllParts && part.IsPartOfHost &&
+	}
+	if matchedAllParts && part.IsPartOfHost &&
 		currentNode.WildcardChild != nil && currentNode.WildcardChild.hasValue() {
 		// case where url is host without path and filter ends with a wildcard, for example:
 		// url: "host.com", filter: "host.com/*"
